@@ -86,6 +86,32 @@ theorem h2c_stream1 (r : ReqEv) :
       else if Bytes.lower h.1 == "host".b then [(":authority".b, h.2), h] else [h]) := by
   simp [h2cHeaders]
 
+/-- **h2c: every upgrade reserves stream 1, whatever the HTTP2-Settings payload** — present, empty or absent (the
+    wrapper then passes the empty string): `initiate` takes h2's upgrade entry point with exactly that payload, the only
+    path on which the upgrade request can be answered as stream 1 -/
+theorem h2c_reserves_stream1 (r : ReqEv) :
+    initiatePath (wrapperSettings .h2c r) = .upgrade (h2cSettings r) := by
+  simp [initiatePath, wrapperSettings, HC.Extracted.H2Init.upgradePath]
+
+/-- the prior-knowledge preface (and ALPN, where `initiate()` is called without arguments) starts a plain HTTP/2
+    connection: no stream is made up -/
+theorem preface_starts_plain (r : ReqEv) : initiatePath (wrapperSettings .prior r) = .plain ∧ initiatePath none = .plain := by
+  simp [initiatePath, wrapperSettings, HC.Extracted.H2Init.upgradePath]
+
+/-- an absent HTTP2-Settings header is the empty payload -/
+theorem h2c_settings_absent (r : ReqEv) (h : ∀ x ∈ r.headers, (Bytes.lower x.1 == "http2-settings".b) = false) :
+    h2cSettings r = [] ∧ HC.Extracted.H2Init.h2cSettingsDefaultEmpty = true := by
+  refine ⟨?_, rfl⟩
+  have : r.headers.reverse.find? (fun h => Bytes.lower h.1 == "http2-settings".b) = none := by
+    rw [List.find?_eq_none]
+    intro x hx
+    have := h x (List.mem_reverse.mp hx)
+    simp [this]
+  simp [h2cSettings, this]
+
+example : initiatePath (wrapperSettings .h2c { method := "GET".b, target := "/".b, headers := [("upgrade".b, "h2c".b)], version := "1.1".b })
+    = .upgrade [] := by decide
+
 example :
     let r : ReqEv := { method := "GET".b, target := "/up?x".b, headers := [("host".b, "h.example".b), ("upgrade".b, "h2c".b),
       ("http2-settings".b, "AAMAAABk".b), ("x-a".b, "1".b)], version := "1.1".b }
